@@ -341,12 +341,37 @@ def m4(ctx):
     stores = [n for n in cfg.stmt_nodes() if n.kind == "stmt" and isinstance(n.ast, ast.Assign) and isinstance(n.ast.targets[0], ast.Subscript)]
     if not stores:
         raise AnalysisError("_get_resources_by_hrefs: path table not found")
+    # the table is the mapping handed to backend.get_resources(); other subscript stores (a per-call memo) are not it
+    handed = {dotted(c.args[0]) for n in cfg.stmt_nodes() for c in n.calls() if isinstance(c.func, ast.Attribute) and c.func.attr == "get_resources" and c.args}
+    handed |= {dotted(it.iter.args[0]) for n in cfg.nodes for e in n.exprs() for it in [x for c_ in ast.walk(e) if isinstance(c_, (ast.GeneratorExp, ast.ListComp)) for x in c_.generators]
+               if isinstance(it.iter, ast.Call) and isinstance(it.iter.func, ast.Attribute) and it.iter.func.attr == "get_resources" and it.iter.args}
+    handed.discard(None)
+    if handed:
+        stores = [st for st in stores if any(dotted(t.value) in handed for t in st.ast.targets if isinstance(t, ast.Subscript))] or stores
+
+    def mapped(node, e, depth=0):
+        """e is href_to_path(...) of this call - directly, through a local, or read back from a per-call memo of such values"""
+        os_ = origins(du, node, e)
+        if not os_ or depth > 3:
+            return False
+        for o in os_:
+            l = o.leaf
+            if o.kind == "expr" and not o.path and isinstance(l, ast.Call) and (dotted(l.func) or "").endswith("href_to_path"):
+                continue
+            if o.kind == "expr" and not o.path and isinstance(l, ast.Subscript) and isinstance(l.value, ast.Name):
+                memo = l.value.id
+                ws = [m_ for m_ in cfg.stmt_nodes() if m_.kind == "stmt" and isinstance(m_.ast, ast.Assign)
+                      and any(isinstance(t, ast.Subscript) and dotted(t.value) == memo for t in m_.ast.targets)]
+                if ws and all(mapped(m_, m_.ast.value, depth + 1) for m_ in ws):
+                    continue
+            return False
+        return True
+
     for st in stores:
-        k = st.ast.targets[0].slice
+        k = next(t for t in st.ast.targets if isinstance(t, ast.Subscript)).slice
         okk = False
         if isinstance(k, ast.Name):
-            ds = du.reaching(st, k.id)
-            okk = bool(ds) and all(isinstance(d.value, ast.Call) and (dotted(d.value.func) or "").endswith("href_to_path") for d in ds)
+            okk = mapped(st, k)
         obs.append(ctx.ob(okk, gr.qualname, where(gr, st), "path table keyed by href_to_path(href) itself", "key is the mapped path",
                           "the table is keyed by `%s`, a many-to-one function of the requested href: several different hrefs of one request collapse "
                           "into one entry and only the last of them is answered" % src(k)))
